@@ -190,7 +190,8 @@ EFFECTS = [
      [(MD, "Model.objective@setter", "calls", "set_objective"), (S, "set_objective", "get_context", None)],
      "model.py L1331 -> solver.py set_objective L202-209 registers reset(expression, direction)"),
     ("set", "M", "objective_direction", "ctx", None, [(MD, "Model.objective_direction@setter", _RS, None)], "model.py L1344-1346"),
-    ("set", "M", "solver", "ctx", None, [(MD, "Model.solver@setter", _RS, None)], "model.py L153-155"),
+    ("set", "M", "solver", "ctx", None, [(MD, "Model.solver@setter", "get_context", None)],
+     "model.py: the setter records context(partial(setattr, self, '_solver', <old solver>)) itself (since /repo 10ce3f2)"),
     ("set", "M", "medium", "ctx", None,
      [(MD, "Model.medium@setter", "calls", "lower_bound,upper_bound"), (R, "Reaction.lower_bound@setter", _RS, None),
       (R, "Reaction.upper_bound@setter", _RS, None)], "model.py L346-349 only uses the resettable bound setters"),
@@ -230,7 +231,7 @@ EFFECTS = [
     ("call", "*", "set_objective", "ctx", "value", [(S, "set_objective", "get_context", None)], "solver.py L202-209"),
     ("call", "*", "add_absolute_expression", "ctx", "fresh",
      [(S, "add_absolute_expression", "calls", "add_cons_vars_to_problem")], "solver.py L463-466 (nothing added when add=False)"),
-    ("call", "*", "choose_solver", "ctx", "value", [(MD, "Model.solver@setter", _RS, None)],
+    ("call", "*", "choose_solver", "ctx", "value", [(MD, "Model.solver@setter", "get_context", None)],
      "solver.py L306-309: assigns model.solver (resettable) only when a solver name is passed"),
     ("call", "*", "knock_out_model_genes", "ctx", "wrap", [("cobra/manipulation/delete.py", "knock_out_model_genes", "calls", "knock_out"), (CORE + "gene.py", "Gene.knock_out", "calls", "functional,bounds")],
      "manipulation/delete.py L86-90: only gene.knock_out()"),
